@@ -186,7 +186,7 @@ def cases(c):
                 spec = [4, 1] if (NFFT <= 9 or not quick) else [4, 4]
                 out.append({'form': 'paths', 'cplx': cplx, 'NFFT': NFFT, 'vec': v, 'pathset': spec,
                             'directed': NFFT in (2, 3, 4, 5)})
-    for i in range(20 if quick else 1800):
+    for i in range(20 if quick else 7200):
         NFFT = int(rng.integers(18, 258))
         cplx = int(rng.integers(0, 2))
         syms = SIDES if not cplx else SIDES[1:]
@@ -194,7 +194,7 @@ def cases(c):
         out.append({'form': 'paths', 'cplx': cplx, 'NFFT': NFFT, 'vec': 'rand', 'paths': ps, 'i': i})
     for n in ([2, 3, 4, 5, 8, 9, 16, 17] + ([] if quick else [33, 64, 101])):
         out.append({'form': 'helpers', 'n': n, 'directed': True})
-    for i in range(10 if quick else 1200):
+    for i in range(10 if quick else 4800):
         out.append({'form': 'arma2psd', 'NFFT': int(gen.pick(rng, [8, 9, 16, 33, 64, 65, 128])), 'cplx': int(rng.integers(0, 2)),
                     'la': int(rng.integers(1, 5)), 'lb': int(rng.integers(0, 4)), 'i': i})
     return out
